@@ -2,7 +2,9 @@
 //! feeding a real RibUnitRunner, queried through Rib::match_prefix.
 //! Serves C01 C02 C03 C05 C15. Same case grammar as oracle/eng_pipe.ml:
 //!   C k | I k | T k | S k i | U k i e | D k i | R k i af a ps wf ws | E k i f |
-//!   B k i | X k | O b | A b af a ps wf ws | Z b | Q af p | M k
+//!   B k i | X k | O b | A b af a ps wf ws | Z b | Q af p | M k | MR | MRS
+//!   (MR = the RIB unit's own counters, see rib_metrics_vec; MRS = the same read, which the oracle also holds against the
+//!   property's reading of the metric descriptions)
 //! and, from the wire (UPDATE octets from C04's proved encoder / malformed variants):
 //!   RB k i <hex>  the octets as the BGP UPDATE of a Route Monitoring message of peer i on router k
 //!   AB b <hex>    the octets as an UPDATE on BGP session b (parsed with SessionConfig::modern())
@@ -522,10 +524,42 @@ pub fn run_case(line: &str) -> String {
                     Some((rid, s)) => out.push(format!("m:{}", crate::engines::pipe::metrics_vec(&s.metrics_prometheus(), *rid))),
                 }
             }
+            // the RIB unit's own metrics (src/units/rib_unit/metrics.rs) as /metrics renders them, through the independent reader
+            "MR" | "MRS" => {
+                if std::env::var("VH_DEBUG").is_ok() { eprintln!("{}", w.rib.verif_metrics_prometheus()); }
+                out.push(rib_metrics_vec(&w.rib.verif_metrics_prometheus()));
+            }
             _ => panic!("bad op {:?}", op),
         }
     }
     out.join(" ")
+}
+
+/// r:unique_prefixes,items,insert_retries,insert_hard_failures,routes_announced,modified_route_announcements,routes_withdrawn,
+/// route_withdrawals_without_announcements - read from the rendered text by promtext; `routes_announced` is shown as the
+/// two's-complement reading of the 64-bit value (the code decrements with a wrapping fetch_sub). A series that is missing is `?`.
+pub fn rib_metrics_vec(text: &str) -> String {
+    let p = match super::promtext::parse(text) {
+        Ok(p) => p,
+        Err(e) => return format!("r:unreadable:{}", e.replace(' ', "_")),
+    };
+    let get = |name: &str| -> String {
+        match p.get(&format!("rotonda_rib_unit_{name}_total"), &[("component", "verif-rib")]) {
+            Some(v) => v.to_string(),
+            None => "?".to_string(),
+        }
+    };
+    let announced = match get("num_routes_announced").parse::<u64>() { Ok(v) => (v as i64).to_string(), Err(_) => "?".to_string() };
+    [
+        get("num_unique_prefixes"),
+        get("num_items"),
+        get("num_insert_retries"),
+        get("num_insert_hard_failures"),
+        announced,
+        get("num_modified_route_announcements"),
+        get("num_routes_withdrawn"),
+        get("num_route_withdrawals_without_announcements"),
+    ].join(",").replacen("", "r:", 1)
 }
 
 /// state,prefixes,unknown_peer,unprocessable,announcements,withdrawals,up,eor_capable,dumping
